@@ -70,8 +70,17 @@ def find(m, F, dem):
 
 def reconstruct(st, snap):
     """Bytes of the conversion string as a list of ('c', byte) / ('digits', len term) items up to the NUL, or None."""
-    cells, regions, p = snap
+    cells, regions, p = snap[0], snap[1], snap[2]
+    data = snap[3] if len(snap) > 3 else None
     if p.off.t:
+        return None
+    if data is not None:
+        # a string literal: its bytes up to the NUL
+        items = []
+        for b in data[p.off.c:]:
+            if b == 0:
+                return items
+            items.append(('c', b & 0xFF))
         return None
     items = []
     pos = Lin.const(p.off.c)
@@ -160,7 +169,7 @@ def renderer(run, m, F, E):
                         continue
                     # the first snprintf renders into the scratch buffer: size == size of that object
                     for e in sn:
-                        _, inst, d, nl, snap, rest = e
+                        _, inst, d, nl, snap, rest = e[:6]
                         if isinstance(d, PtrV) and d.obj in s2.objs and nl is not None:
                             osz = s2.objs[d.obj].size
                             if osz is not None and s2.is_ge0(osz - d.off - nl) is not True:
@@ -174,6 +183,13 @@ def renderer(run, m, F, E):
                             continue
                         want = [('c', ord('%'))] + ([('c', ord('+'))] if signed else []) + ([('c', ord('.')), ('digits',)] if has_prec else []) + [('c', cch)]
                         shape = [(x[0], x[1]) if x[0] == 'c' else ('digits',) for x in items]
+                        # the precision may also travel as an argument ("%.*f", precision, value): printf treats a negative one as omitted
+                        want_star = [('c', ord('%'))] + ([('c', ord('+'))] if signed else []) + [('c', ord('.')), ('c', ord('*')), ('c', cch)]
+                        if shape == want_star:
+                            pa = rest[0] if rest else None
+                            if not (isinstance(pa, IntV) and s2.is_eq0(I.as_s(s2, pa) - Lin.atom('prec')) is True):
+                                problems.append(('R13.2', 'conversion %s takes its precision from %r, not from format.precision' % (show(items), pa), 'conv'))
+                            continue
                         if shape != want:
                             problems.append(('R13.2', 'conversion string is %s, expected %s' % (show(items), show(want)), 'conv'))
                         for x in items:
@@ -253,7 +269,7 @@ def formatter_class(run, m, F, E):
             if o.kind != 'ret':
                 continue
             for e in [e for e in s2.events if e[0] == 'snprintf']:
-                _, inst, d, nl, snap, rest = e
+                _, inst, d, nl, snap, rest = e[:6]
                 if isinstance(d, PtrV) and d.obj in s2.objs and nl is not None and s2.objs[d.obj].size is not None:
                     if s2.is_ge0(s2.objs[d.obj].size - d.off - nl) is not True:
                         problems.append(('R13.1', 'snprintf is told the destination holds %r bytes but it holds %r' % (nl, s2.objs[d.obj].size - d.off), 'size'))
